@@ -87,6 +87,17 @@ pub fn set_handler(h: Handler) {
     STATE.with(|s| s.borrow_mut().handler = Some(h));
 }
 
+/// forget everything (handler, log, re-entrancy flag) — use after a panic unwound through a handler
+pub fn reset() {
+    STATE.with(|s| {
+        let mut s = s.borrow_mut();
+        s.handler = None;
+        s.logging = false;
+        s.log.clear();
+        s.busy = false;
+    });
+}
+
 pub fn clear_handler() {
     STATE.with(|s| s.borrow_mut().handler = None);
 }
